@@ -22,7 +22,7 @@ META = dict(
     ],
     stubs=["os.listdir('/proc')", "open() of /proc/<pid>/{stat,status}", "os.kill"],
     bounds=dict(quick=dict(pool="4 PIDs + 1 thread id, presence and re-use per step symbolic", history="K<=2 steps of {table change, full iteration, partial iteration, cache_clear, is_running on cached objects}", pid_exists="one unconstrained integer"),
-                thorough=dict(pool="as quick", history="K<=4", pid_exists="as quick")),
+                thorough=dict(pool="as quick", history="K<=3 unrestricted; K<=5 with one changing PID and the events {table change, iterate[, is_running]}", pid_exists="as quick")),
     outside=["more than 2 threads / more than 2 pre-emptions; races inside one source line", "more than 4 PIDs"],
     labels=["pids-ascending-listed", "ascending-one-per-listed-pid", "same-object-while-listed", "fresh-object-after-detected-reuse", "cache-holds-exactly-listed", "is_running", "pid_exists-listed",
             "pid_exists-any-int", "attrs-info-keys", "partial-iteration-skips-vanished", "race-no-exception"],
@@ -66,8 +66,8 @@ class Table:
             k.files.pop(f"/proc/{TID}/status", None), k.files.pop(f"/proc/{TID}/stat", None)
         k.dirs["/proc"] = [str(p) for p in POOL if self.present[p]] + ["self", "net", "stat"]
 
-    def change(self, tag):
-        for p in POOL[1:]:
+    def change(self, tag, only=None):
+        for p in (only or POOL[1:]):
             now = self.ctx.flag(f"p{tag}_{p}")
             if now and not self.present[p]:
                 self.gen[p] += 1                      # a new process takes the pid
@@ -80,17 +80,21 @@ class Table:
         return [p for p in POOL if self.present[p]]
 
 
-@harness("C04.iter", quick=[dict(K=2)], thorough=[dict(K=3), dict(K=4), dict(K=5)])
-def iter_(ctx, K):
+ITER_EVENTS = ["table", "iterate", "clear", "is_running", "attrs"]
+
+
+@harness("C04.iter", quick=[dict(K=2)], thorough=[dict(K=3), dict(K=4, events=["table", "iterate", "is_running"], changing=[12]), dict(K=5, events=["table", "iterate"], changing=[12])])
+def iter_(ctx, K, events=None, changing=None):
+    """events / changing: restrictions used for the longer histories (which events may occur, which PIDs may change)"""
     k = simk.Kernel(ctx)
     simk.system_files(k)
     t = Table(ctx, k)
     cache = {}     # reference of what the cache should hold: pid -> (object, incarnation)
     with k.installed():
         for step in range(K):
-            ev = ctx.choice(f"ev{step}", ["table", "iterate", "clear", "is_running", "attrs"])
+            ev = ctx.choice(f"ev{step}", events or ITER_EVENTS)
             if ev == "table":
-                t.change(step)
+                t.change(step, changing)
             elif ev == "clear":
                 psutil.process_iter.cache_clear()
                 cache.clear()
@@ -102,8 +106,10 @@ def iter_(ctx, K):
                 want = [a for a in ATTRS if ctx.flag(f"attr{step}_{a}")]
                 if not want:
                     continue          # attrs=[] is documented as "all attributes"
+                flagged = sorted(p for p in psutil._pids_reused if p in t.listed())
                 got = ctx.guard("attrs-info-keys", lambda: list(psutil.process_iter(attrs=want)))
-                ctx.prove([x.pid for x in got] == t.listed() and all(set(x.info) == set(want) for x in got), "attrs-info-keys", detail=f"{want}")
+                _check_listing(ctx, [x.pid for x in got], t.listed(), flagged)
+                ctx.prove(all(set(x.info) == set(want) for x in got), "attrs-info-keys", detail=f"{want}")
                 for x in got:
                     if x.pid not in cache or cache[x.pid][0] is not x:
                         cache[x.pid] = (x, t.gen[x.pid])
@@ -128,7 +134,10 @@ def iter_(ctx, K):
                 for p in list(cache):
                     if p not in listed:
                         del cache[p]
-                ctx.prove(set(psutil._pmap) == set(listed), "cache-holds-exactly-listed")
+                if not flagged:
+                    ctx.prove(set(psutil._pmap) == set(listed), "cache-holds-exactly-listed")
+                else:       # known finding C04-reused-pid-skipped-once: the skipped PID is also missing from the cache until the next pass
+                    ctx.prove(set(psutil._pmap) in (set(listed), set(listed) - set(flagged)), "cache-correct-or-known-omission", detail=f"{sorted(psutil._pmap)} listed={listed} flagged={flagged}")
         for p in POOL:
             ctx.prove(psutil.pid_exists(p) == t.present[p], "pid_exists-listed", detail=f"pid {p}")
         ctx.prove(psutil.pid_exists(TID) is False, "pid_exists-listed", detail="thread id")
@@ -186,6 +195,8 @@ def partial(ctx, consume):
             except StopIteration:
                 break
         t.change("b")
+        if consume == 0:
+            started = t.listed()        # a generator reads the table at its first next(), not when it is created
         rest = ctx.guard("partial-iteration-skips-vanished", lambda: [x.pid for x in it])
         got += rest
     ctx.prove(got == sorted(got) and len(got) == len(set(got)) and set(got) <= set(started), "partial-iteration-skips-vanished", detail=f"{got} started={started}")
